@@ -102,3 +102,79 @@ def check_C07(tier):
     rep.assumptions = ['theorems checked by TLC on the spec: UnfoldIsDenote (operational pipeline = declarative denotation), '
                        'ErrorOnlyWhenDenoted, AllTypedAndMatching, NoDoubleStarLeft, LeafOnlyAfterExpand']
     return rep.finish()
+
+
+def _has_gt(c):
+    s = c['search']
+    return any('>' in alts for alts in s['segs']) or any('>' in v for k, v in s['query'])
+
+
+@reg
+def check_C08(tier):
+    rep = Report('C08', tier)
+    env = Env()
+    conf = extract_conf(env)
+    calls = search_family(rep, env, conf, 'findlist', tier, 'C08 family: searches without ">" x generated universes (complete / leaf-only / noisy)', gt=False)
+    rep.exhaustive = True
+    for t in ('findlist:star:found', 'findlist:star:nothing', 'findlist:error'):
+        rep.guard(t in rep.cover or not calls, '%s never exercised' % t)
+    rep.assumptions = ['names without glob metacharacters ([ ] ?)', 'universes of spec/Universe.tla (<= 140 entries)']
+    return rep.finish()
+
+
+@reg
+def check_C09(tier):
+    rep = Report('C09', tier)
+    env = Env()
+    conf = extract_conf(env)
+    calls = search_family(rep, env, conf, 'findlist', tier, 'C09 family: searches with ">" x universes whose names sort below "/"',
+                          keep=_has_gt, gt=True)
+    rep.exhaustive = True
+    rep.guard('findlist:gt:found' in rep.cover or not calls, 'no ">" search with a result exercised')
+    rep.notes['gt_precondition_false'] = rep.cover.get('findlist:gt-precondition-false', 0)
+    rep.assumptions = ['the comparison applies where all unfolded forms carry ">" at one position (else counted as gt-precondition-false)']
+    return rep.finish()
+
+
+@reg
+def check_C10(tier):
+    rep = Report('C10', tier)
+    env = Env()
+    conf = extract_conf(env)
+    calls = search_family(rep, env, conf, 'algebra', tier, 'C10 family: (search, derived searches) by the five rewrite rules',
+                          keep=lambda c: c.get('op') == 'algebra', gt=True)
+    rep.exhaustive = True
+    for r in ('union:comma', 'union:alias', 'starstar', 'filter', 'literal'):
+        rep.guard(any(t.startswith('algebra:' + r) for t in rep.cover) or not calls, 'rule %s never exercised' % r)
+    rep.assumptions = ['filter / literal / ** rules generated only where the query does not add a level (overlays belong to C04)',
+                       'theorem checked by TLC on the spec: AlgebraHolds over the generated universes']
+    return rep.finish()
+
+
+@reg
+def check_C19(tier):
+    rep = Report('C19', tier)
+    env = Env()
+    conf = extract_conf(env)
+
+    def to_calls(cfgs):
+        out = []
+        for c in cfgs:
+            c = dict(c)
+            tox = c['toX']
+            c['toX'] = sorted(tox['__set__']) if isinstance(tox, dict) else list(tox)
+            out.append(dict(op='extrapolate', cfg=c))
+        return out
+    calls = K.spec_to_code(rep, env, conf, 'MC_Extrapolate', 'MC_Extrapolate_%s.cfg' % tier,
+                           'grammar of template configurations (entries x extrapolated types x selectors)',
+                           var='cfg', transform=to_calls)
+    # the shipped configuration itself: the raw templates of the working tree
+    raw = json.load(open(conf))
+    calls.append(dict(op='extrapolate', cfg=dict(templates=raw['templates'], toX=raw['to_extrapolate'], kps=raw['key_patterns'])))
+    K.code_to_spec(rep, env, conf, calls, 'extrapolate_templates + pattern_replacing on every configuration', tag='c19')
+    rep.exhaustive = True
+    rep.guard('extrapolate:many' in rep.cover or not calls, 'no configuration with two extrapolated types')
+    rep.guard(any(t.endswith(':replace') for t in rep.cover) or not calls, 'no pattern replacement exercised')
+    rep.assumptions = ['theorems checked by TLC on the spec: ExtrapolationOK (KeptInOrder, NoDuplicates, OnlyPrefixesAdded, LongestFirst, Complete), ReplaceScoped',
+                       'grammar: 4 hierarchies sharing prefixes, chains of 1-5 keys, explicit / bare / colliding names, <= MaxEntries entries']
+    return rep.finish()
